@@ -120,6 +120,30 @@ def run(ctx):
     for k, (ok, st, flag) in sorted(seen.items()):
         ctx.inst("R15.1", k, ok, st.fn.where(), "can_go_over_fluctuation = %s" % (sym.show(flag, 4) if flag is not None else "missing"))
 
+    # ... and the other way round: "otherwise it closes exactly the configured fraction" - the partial close must go
+    # through although it may itself end outside the band, so the SwapInput the ClosePosition arm emits for it carries
+    # can_go_over_fluctuation = true (blind sweep: the literal flipped to false refused the partial close)
+    exc = None
+    n_pc = 0
+    for key, sts in chains.items():
+        if key.split(">")[0] != "ClosePosition":
+            continue
+        for st in sts[:1]:
+            for q in st.ok_paths():
+                for s in model.path_submsgs(ix, q):
+                    mv = ix.msg_variant(s.inner_msg())
+                    if not mv or mv[1] != "SwapInput":
+                        continue
+                    n_pc += 1
+                    flag = ix.inline(mv[2].get("can_go_over_fluctuation")) if mv[2].get("can_go_over_fluctuation") is not None else None
+                    if not (flag is not None and tag(flag) == "bool" and payload(flag)[0]):
+                        exc = exc or (st, flag)
+    if n_pc:
+        ctx.inst("R15.1", "flag-true:partial-close", exc is None, (exc[0] if exc else sts[0]).fn.where(),
+                 "%d partial-close SwapInput emissions; can_go_over_fluctuation = %s" % (n_pc, "true" if exc is None else (sym.show(exc[1], 4) if exc[1] is not None else "missing")))
+    else:
+        ctx.lost("R15.1", "partial-close SwapInput of the ClosePosition arm")
+
     band_instances(ctx, "R15.2")
 
     def vstate_write(e):
